@@ -50,6 +50,12 @@ def jobs_for(tier, rng, nd):
             job["max_eval_iter"] = rng.choice([2, 10])
             job["reset"] = rng.random() < 0.3
         jobs.append(job)
+    # at scale: more than 1024 states (default max_batch_size) spread over the devices
+    if nd > 1 or tier == "thorough":
+        m = gen.union(rng, rng.randint(560, 640), PD=2, na=2, ne=2, rmax=3, v0max=1, plain=True)
+        for kind in ("VI", "SAVI"):
+            jobs.append({"mdp": m, "kind": kind, "gamma": [1, 2], "eps": [1, 3], "test": "span", "calls": [3],
+                         "mbs": 1024, "shuffle": False, "seed": 1, "tag": f"{kind}-large@{nd}dev"})
     # the corner the property text names: two or more devices and no padding at all
     for kind in ("VI", "SAVI"):
         m = gen.union(rng, 3, PD=2, plain=True, chain=False)
